@@ -267,7 +267,7 @@ def run (caseToks impl : List String) : String :=
   | ["h2cuts", stream, lens] => h2cuts stream lens impl
   | ["rl", proto, stream, lens, dflt, _script] => rl false proto stream lens dflt impl
   | ["rlnp", proto, stream, lens, dflt, _script] => rl true proto stream lens dflt impl
-  | ["ctx", proto, frames, chunks] => MosnVerif.Drive.DispatchCtx.run proto frames chunks impl
+  | ["ctx", proto, _stream, frames, chunks] => MosnVerif.Drive.DispatchCtx.run proto frames chunks impl
   | _ => "E E unknown-kind"
 
 end MosnVerif.Drive.C07
